@@ -387,10 +387,11 @@ noncomputable def idealEnv : Env :=
 
 theorem C11_hypotheses_consistent :
     ∃ (E : Env) (R : Con → Prop), Reg R E ∧ OracleExact E ∧ SimpOn R E ∧ CheapSound E ∧ R regCon := by
-  refine ⟨idealEnv, fun c => c = regFalse ∨ c = regCon, ⟨?_, ?_, ?_, Or.inl rfl, fun _ => rfl⟩, ?_, fun _ _ _ _ => rfl,
+  refine ⟨idealEnv, fun c => c = regFalse ∨ c = regCon, ⟨?_, ?_, ?_, ?_, Or.inl rfl, fun _ => rfl⟩, ?_, fun _ _ _ _ => rfl,
     ⟨fun _ _ _ h => by simp [idealEnv] at h, fun _ _ h => by simp [idealEnv] at h, fun _ _ h => by simp [idealEnv] at h⟩,
     Or.inr rfl⟩
   · rintro c c' (rfl | rfl) (rfl | rfl) hid a <;> first | rfl | (simp [regFalse, regCon] at hid)
+  · rintro c c' (rfl | rfl) (rfl | rfl) hid <;> first | rfl | (simp [regFalse, regCon] at hid)
   · rintro c (rfl | rfl)
     · exact ⟨fun _ _ _ => rfl, fun _ _ => rfl, fun b hb a => by simp [regFalse] at hb ⊢; exact hb, fun _ _ _ h => by simp [regFalse] at h⟩
     · exact ⟨fun a a' h => by simp [regCon, h 0 (by simp [regCon])], fun h => by simp [regCon] at h,
